@@ -22,7 +22,7 @@ type routeFact struct {
 	First   string   `json:"first_gate"` // which of sealed/auth comes first in the body
 }
 
-func init() { register("routes", genRoutes) }
+func init() { register("a-routes", genRoutes) }
 
 func maskClass(p *pkgInfo, e ast.Expr) string {
 	s := p.str(e)
